@@ -38,6 +38,7 @@ func specAlive[K comparable, V any](n Node[K, V]) bool {
 // Global invariants of the deadline fields: assumed at every read, required of every setter call.
 //@ fieldinv ghost_expiresAt: v >= 0
 //@ fieldinv ghost_refreshableAt: v >= 0
+//@ fieldinv ghost_queueType: v <= 2
 
 //@ iface Node.Key : C01 C03
 //@   nopanic
@@ -177,6 +178,7 @@ func specAlive[K comparable, V any](n Node[K, V]) bool {
 //@ iface Node.SetQueueType : C01 C05
 //@   nopanic
 //@   requires [needs-size] ghost_hasSize()
+//@   requires [queue-type-range] queueType <= 2
 //@   modifies n.queueType
 //@   ensures [set-queueType] ghost_queueType(n) == queueType
 
